@@ -46,12 +46,13 @@ def export(src=None, extra_crates=None, pkg_args=None, target=None):
     if not os.path.exists(DRIVER):
         build_driver()
     os.makedirs(CACHE, exist_ok=True)
-    target = target or os.path.join(CACHE, 'target')
+    slot = os.environ.get('OAL_TARGET_SLOT')
+    target = target or os.path.join(CACHE, 'target' + ('-slot' + slot if slot else ''))
     os.makedirs(target, exist_ok=True)
     out = os.path.join(CACHE, 'facts.%d.%d' % (os.getpid(), int(time.time() * 1000) % 100000))
     shutil.rmtree(out, ignore_errors=True)
     os.makedirs(out)
-    lock = open(os.path.join(CACHE, 'export.lock'), 'w')
+    lock = open(os.path.join(target, 'export.lock'), 'w')
     fcntl.flock(lock, fcntl.LOCK_EX)
     try:
         for fp in glob.glob(os.path.join(target, 'debug', '.fingerprint', 'oal-*')):
@@ -313,6 +314,8 @@ class Facts:
                         for a in t['args']:
                             if a.get('o') == 'const' and 'fn' in a:
                                 out |= self._targets(a['fn'], impls_by_trait_method)
+            for info in f.d.get('promoted_fns') or []:
+                out |= self._targets(info, impls_by_trait_method)
             cg[f.id] = {x for x in out if x in self.fns}
         self._cg = cg
         return cg
